@@ -95,6 +95,10 @@ func runC19(c *vkit.Ctx, i int, h *History) {
 	r := c.Rand("run", i)
 	s := NewSess("c19")
 	defer s.Close()
+	s.ShareConfigs = i%2 == 0
+	if s.ShareConfigs {
+		c.Count("histories_through_shared_config_objects", 1)
+	}
 	stopped := false
 	report := func(phase string) func(o Op, res StepResult) bool {
 		return func(o Op, res StepResult) bool {
